@@ -86,6 +86,14 @@ func runC15(w *World, r *Report) {
 	lookupNamesRule(w, r)
 	r.Rule("lookup", "case folding, width doubling and mask flag of the lookup", 5)
 	r.Rule("fresh", "the lookup returns a fresh allocation that copies no pointer from the table", 1)
+	// the 4-byte header codec: unpack accepts every word pack can produce — its only refusal is a short input
+	// (the reject rule of C04, for this one decoder)
+	r.Rule("unpack-total", "the header decoder refuses nothing but a short input: every 32-bit word pack produces is unpacked again", 1)
+	if r.Prop == "C15" {
+		rejectOnly = func(fi *FuncInfo) bool { return fi.Key == "openflow13.MatchField.UnmarshalHeader" }
+		rejectRule(w, r, "unpack-total", func(pkg string) bool { return pkg == "openflow13" })
+		rejectOnly = nil
+	}
 	runC15Lanes(w, r)
 	var spec regSpec
 	if err := loadSpec("oxm_registry.json", &spec); err != nil {
